@@ -96,10 +96,9 @@ def eval_expression(expr: str, context: dict) -> Any:
                             f"Error evaluating inner expression: '{inner_expression}'"
                         ) from ex
 
-                    value = str(value)
-
-                    # Escape special characters
-                    value = escape_special_string_characters(value)
+                    # The value is spliced into the string literal, so it must be escaped
+                    # such that the literal evaluates to exactly the value
+                    value = _escape_interpolated_value(str(value))
 
                     inner_expression_values.append(value)
                 string_expression = re.sub(
@@ -199,6 +198,29 @@ def eval_expression(expr: str, context: dict) -> Any:
         return result
     except Exception as e:
         raise ColangValueError(f"Error evaluating '{expr}', {e}")
+
+
+def _escape_interpolated_value(value: str) -> str:
+    """Escape a value that is spliced into a string literal of an expression.
+
+    The literal is evaluated afterward, so every character that has a meaning in the
+    literal (quotes, backslashes) or for the expression evaluation (curly brackets,
+    the variable marker `$`) is replaced by its escape sequence. The evaluated literal
+    contains the value unchanged.
+    """
+    escaped = []
+    for character in value:
+        if character in "\\'\"{}$" or not character.isprintable():
+            code = ord(character)
+            if code < 0x100:
+                escaped.append(f"\\x{code:02x}")
+            elif code < 0x10000:
+                escaped.append(f"\\u{code:04x}")
+            else:
+                escaped.append(f"\\U{code:08x}")
+        else:
+            escaped.append(character)
+    return "".join(escaped)
 
 
 def _create_regex(pattern: str) -> re.Pattern:
